@@ -167,3 +167,69 @@ func VerifBroadcastClose() {
 	zzverif.Assert(zzverif.ThreadsAliveIs(1), "forwarders_gone_after_close")
 	zzverif.Cover("broadcast_close_done")
 }
+
+// Membership over time: a sequence of departures and new subscriptions (which of the current subscribers leaves at
+// each step is forked) interleaved with broadcasts. After every step, exactly the subscribers that are still
+// subscribed receive the next value - a departure removes the one that left and nobody else, whatever identifiers the
+// implementation gives to subscribers that came later.
+//
+//verif:harness prop=C11 name=broadcast_membership threads=12 sched=delay preempt=0 unwind=14 witness=lenient
+func VerifBroadcastMembership() {
+	b := New[vMsg]()
+	type member struct {
+		c      *vConsumer
+		cancel context.CancelFunc
+		live   bool
+	}
+	var ms []*member
+	join := func() {
+		ctx, cancel := context.WithCancel(context.Background())
+		m := &member{c: &vConsumer{ch: make(chan vMsg)}, cancel: cancel, live: true}
+		b.Subscribe(ctx, m.c.ch)
+		go vConsume(m.c)
+		ms = append(ms, m)
+	}
+	join()
+	join()
+	next := 1
+	check := func() {
+		b.Broadcast(vMsg{next, next})
+		zzverif.WaitQuiescent()
+		for _, m := range ms {
+			if m.live {
+				zzverif.Assert(vCount(m.c.got, next) == 1, "subscribed_member_receives_the_value_once")
+			} else {
+				zzverif.Assert(vCount(m.c.got, next) == 0, "departed_member_receives_nothing_more")
+			}
+		}
+		next++
+	}
+	check()
+	steps := 4
+	if zzverif.Thorough() {
+		steps = 6
+	}
+	for s := 0; s < steps; s++ {
+		if zzverif.Bool("join") {
+			join()
+		} else {
+			var live []*member
+			for _, m := range ms {
+				if m.live {
+					live = append(live, m)
+				}
+			}
+			if len(live) == 0 {
+				join()
+			} else {
+				m := live[zzverif.Choose("who_leaves", len(live))]
+				m.cancel()
+				m.live = false
+				zzverif.WaitQuiescent()
+			}
+		}
+		check()
+	}
+	b.Close()
+	zzverif.Cover("broadcast_membership_done")
+}
